@@ -143,12 +143,34 @@ static std::vector<IJ> lattice_walk(Rng& rng, int G, int n, bool clean) {
 
 static void gen_path_case(Ctx& ctx, Case& c, uint64_t i) {
   Rng& rng = ctx.rng;
-  int cls = (int)((i / 8) % 8);  // (i % 8 == 7 is the ellipse case)  0,1: tiny lattice  2: translated  3: scaled  4: affine lattice at 2^40  5: strip  6: tiny  7: wrap corners
+  int cls = (int)((i / 8) % 8);  // (i % 8 == 7 is the ellipse case)  8: long structured paths (1 in 400)  0,1: tiny lattice  2: translated  3: scaled  4: affine lattice at 2^40  5: strip  6: tiny  7: wrap corners
   int n = rng.chance(0.25) ? rng.irange(0, 5) : rng.irange(6, 40);
   Path64 p;
   std::vector<double> thr = { 0, 1, 1.5, 3, 10 };
   std::string magname;
-  if (cls == 7) {
+  if ((i / 8) % 400 == 399) cls = 8;
+  if (cls == 8) {
+    // long structured paths (150-3000 points): amplitude-decaying zigzags and square waves, spirals, x-monotone "time
+    // series" - deep, lopsided split trees for the recursive simplifiers, where short random paths only give shallow ones
+    n = (int)std::exp(rng.real(std::log(150.0), std::log(3000.0)));
+    const int shape = rng.irange(0, 3);
+    const int64_t step = rng.range(2, 40), A = rng.range(50, 100000);
+    const double decay = rng.real(0.97, 0.9995);
+    double amp = (double)A;
+    for (int k = 0; k < n; ++k) {
+      int64_t x, y;
+      if (shape == 0) { x = k * step; y = (k & 1) ? (int64_t)amp : -(int64_t)amp; amp = std::max(3.0, amp * decay); }                      // decaying zigzag
+      else if (shape == 1) { x = (k / 2) * step; y = ((k / 2) & 1) ? (int64_t)amp : -(int64_t)amp; if (k & 1) x += step; amp = std::max(3.0, amp * decay); }   // decaying square wave
+      else if (shape == 2) { double a = 0.35 * k, rr = 5.0 + (double)A * std::pow(decay, k); x = (int64_t)(rr * std::cos(a)); y = (int64_t)(rr * std::sin(a)); }   // spiral
+      else { x = k * step + rng.range(0, step - 1); y = rng.range(-A, A) / (1 + (k % 7)); }                                                 // time series
+      if (!p.empty() && p.back().x == x && p.back().y == y) continue;
+      p.emplace_back(x, y);
+    }
+    n = (int)p.size();
+    thr = { 0, 1, 1.5, 3, 10, (double)A / 50, (double)A / 5 };
+    magname = "long_structured";
+    ctx.cmax("max_long_path_points", (long long)p.size());
+  } else if (cls == 7) {
     // corners whose cross product is exactly +-2^w (w = 16..96; edge components below 2^38): zero in a w-bit word, so a
     // collinearity test that compares truncated or carry-less products removes a genuine corner
     int64_t x = rng.chance(0.5) ? 0 : rng.range(-((int64_t)1 << 40), (int64_t)1 << 40), y = rng.chance(0.5) ? 0 : rng.range(-((int64_t)1 << 40), (int64_t)1 << 40);
